@@ -1,6 +1,8 @@
 package c28
 
 import (
+	"math/big"
+	"regexp"
 	"strconv"
 	"strings"
 	"time"
@@ -25,6 +27,9 @@ const (
 	// TIME / TIMESTAMP(n) with fractional seconds over the binary protocol: the field
 	// packet announces decimals = 0 (schemaToFields sets Decimals for DATETIME only).
 	kfTimeBinaryFrac = "C28-binary-fraction-decimals"
+	// JSON doubles in [2^63, 2^64): printed in integer syntax with the shortest digits padded
+	// by zeros ("9223372036854776000" for 2^63), which reads back as a different integer.
+	kfJSONBigDouble = "C28-json-double-2p63"
 )
 
 // roundTripFinding recognises the text forms that known findings produce for a stored value.
@@ -36,6 +41,9 @@ func roundTripFinding(c colType, v any, text []byte) string {
 				return kfDateYearPad
 			}
 		}
+	}
+	if c.kind == "json" && jsonBigDouble(text) {
+		return kfJSONBigDouble
 	}
 	if c.kind == "year" && string(text) == "0" {
 		// YEAR 0000 is printed as "0", and the string '0' denotes the year 2000
@@ -59,6 +67,25 @@ func wireFinding(c colType, proto string, fullText, received []byte) string {
 		}
 	}
 	return ""
+}
+
+var bigIntToken = regexp.MustCompile(`[0-9]{19,20}`)
+
+// jsonBigDouble reports whether a JSON text holds an integer token in [2^63, 2^64) that is not
+// exactly representable as a double although its digits are the shortest representation of
+// one: the print of a stored double, not of a stored integer.
+func jsonBigDouble(text []byte) bool {
+	for _, tok := range bigIntToken.FindAll(text, -1) {
+		u, err := strconv.ParseUint(string(tok), 10, 64)
+		if err != nil || u < 1<<63 {
+			continue
+		}
+		f := float64(u)
+		if strconv.FormatFloat(f, 'f', -1, 64) == string(tok) && new(big.Float).SetUint64(u).Cmp(big.NewFloat(f)) != 0 {
+			return true
+		}
+	}
+	return false
 }
 
 func lengthKnown(c colType, v any, text []byte) bool { return lengthFinding(c, text) != "" }
